@@ -90,7 +90,76 @@ def cli_replay(rows_spec, order, desc):
     return rep
 
 
+def fam_parse_group_by(sess):
+    """the whole real Parser::parse on `<key> , count ( name ) from . [where size > 1] group by <key>`: the grouping key parses to the
+    plain column (also for boolean columns, with and without a WHERE clause)"""
+    from drivers import parsecore as P
+    prog = sess.prog
+    fam = 'parse_group_by'
+    ov = P.table_overrides() + P.lexer_stub_overrides() + [(r'^UserDirs::new$|^directories::UserDirs::new$', lambda ctx, a, c: none(), 'stub:UserDirs::new(None)')]
+    ex = sess.executor(ov, unwind=30)
+    parse = prog.find('Parser', 'parse')
+    keys = ['ext', 'is_dir', 'size', 'mode', 'is_hidden', 'uid']
+    Fq = E.struct_fields(prog, 'Query'); Fe = E.struct_fields(prog, 'Expr')
+    for with_where in (False, True):
+        box = {'seen': {}}
+
+        def run(ctx, with_where=with_where):
+            k1, t1 = P.sym_lexem(ctx, prog, keys, 'key')
+            k2, t2 = P.sym_lexem(ctx, prog, keys, 'key2')
+            ctx.assume(t1 == t2)
+            toks = [k1] + [P.mk_lexem(prog, t) for t in [',', 'count', '(', 'name', ')', 'from', '.']]
+            if with_where:
+                toks += [P.mk_lexem(prog, t) for t in ['where', 'size', '>', '1']]
+            toks += [P.mk_lexem(prog, 'group'), P.mk_lexem(prog, 'by'), k2]
+            parser = P.mk_parser(prog, toks, roots_parsed=False, where_parsed=False)
+            return t1, ctx.call_fn(parse, [Ref(Cell(parser)), Seq([]), BoolVal(False)])
+
+        def on_path(ctx, out, with_where=with_where):
+            name = 'parse_group_by %s WHERE' % ('with' if with_where else 'without')
+            if out[0] != 'ret':
+                box['bad'] = True; sess.inconclusive(name, str(out), fam); return
+            t1, res = out[1]
+            block = []
+            for _ in range(len(keys)):
+                m = ctx.model(*block)
+                if m is None:
+                    break
+                k = m.eval(t1, model_completion=True).as_long(); block.append(t1 != k)
+                key = keys[k]
+                okv = False
+                if conc(res.d) == 0:
+                    q = res.p[0][0]
+                    gf = ctx.deref(q.f[Fq.index('grouping_fields')])
+                    gf = gf.cell.v if hasattr(gf, 'cell') else gf
+                    if len(gf.items) == 1:
+                        e = gf.items[0].v
+                        fld = e.f[Fe.index('field')]; op = e.f[Fe.index('op')]; lft = e.f[Fe.index('left')]
+                        okv = conc(fld.d) == 1 and conc(op.d) == 0 and conc(lft.d) == 0
+                box['seen'][key] = okv
+        ex.explore(run, on_path)
+        name = 'parse_group_by %s WHERE' % ('with' if with_where else 'without')
+        bad = [k for k, v in box['seen'].items() if not v]
+        if bad:
+            def rep(bad=bad, with_where=with_where):
+                exe = common.native_binary()
+                tree = {'a': {'size': 5}, 'd': {'kind': 'dir'}, 'd/b': {'size': 7}}
+                k = bad[0]
+                argv = [k + ',', 'count(name)', 'from', '.'] + (['where', 'size', '>', '1'] if with_where else []) + ['group', 'by', k]
+                r = common.run_cli(exe, argv, tree)
+                rows = [l.split('\t') for l in r['stdout'].split('\n')[:-1]]
+                keysv = sorted(x[0] for x in rows)
+                exp = sorted({'true', 'false'}) if k.startswith('is_') else None
+                return (exp is not None and keysv != exp) or r['status'] != 0, 'fselect %s -> %r (status %s)' % (' '.join(argv), rows, r['status'])
+            sess.violated(name, 'parse_group_by/' + '+'.join(bad), 'the grouping key does not parse to the plain column for %r' % bad, {'keys': bad}, rep, fam)
+        elif not box.get('bad') and len(box['seen']) == len(keys):
+            sess.discharged(name + ': every key column parses to itself', family=fam, queries=len(keys))
+        elif not box.get('bad'):
+            sess.inconclusive(name, 'keys not covered: %r' % sorted(set(keys) - set(box['seen'])), fam)
+
+
 def main(sess):
+    fam_parse_group_by(sess)
     prog = sess.prog
     sess.engines = ['mirsym (MIR symbolic execution) + z3 %s' % z3.get_version_string()]
     sess.assumptions += [
